@@ -135,7 +135,35 @@ def _decide(cons, timeout_ms=20000, abstract_first=True):
         return QResult("unsat", method="exact", secs=secs, solver=s)
     if r == z3.sat:
         return QResult("sat", model=s.model(), method="exact", secs=secs, solver=s)
-    return QResult("unknown", method="exact", secs=secs, solver=s)
+    # z3 gave up: second opinion from cvc5 (its nonlinear integer procedure decides many of the
+    # division / multi-limb queries z3's does not). Only `unsat` is used: a `sat` without a
+    # z3 model cannot be replayed, so it stays undecided.
+    v = cvc5_verdict(s, max(5, min(60, timeout_ms // 1000)))
+    if v == "unsat":
+        return QResult("unsat", method="cvc5", secs=time.time() - t0, solver=s)
+    q = QResult("unknown", method="exact", secs=time.time() - t0, solver=s)
+    q.cvc5 = v
+    return q
+
+
+def cvc5_verdict(solver, timeout_s):
+    text = "(set-logic ALL)\n" + solver.to_smt2().replace("(set-logic ALL)\n", "")
+    with tempfile.NamedTemporaryFile("w", suffix=".smt2", delete=False) as f:
+        f.write(text)
+        path = f.name
+    try:
+        r = subprocess.run(["cvc5", "--lang", "smt2", f"--tlimit={timeout_s * 1000}", path],
+                           capture_output=True, text=True, timeout=timeout_s + 5)
+        full = (r.stdout + r.stderr).strip()
+        out = full.split("\n")[0].strip()
+        if out in ("sat", "unsat", "unknown"):
+            return out
+        return "unknown" if "timeout" in full or "interrupted" in full else "error"
+    except (subprocess.TimeoutExpired, FileNotFoundError):
+        return "unknown"
+    finally:
+        import os
+        os.unlink(path)
 
 
 def cross_check(solver, expect, timeout_s=30):
